@@ -60,6 +60,7 @@ static cat_return_state policy(struct hcall *h)
                         viol("C10", "stale-buffer", "invocation %d was handed \"%.40s\" (size %zu) instead of the freshly formatted \"%.40s\"", k, d, *h->psize, fresh0);
                 bool mod = rewrite == 1 || (rewrite == 2 && (k & 1));
                 if (mod) *h->psize = (size_t)snprintf((char *)h->data, h->max, "~%d", k);
+                if (rewrite == 3 && (k % 3) != 1 && h->max > 0) { h->data[0] = 0; *h->psize = 0; }      /* the handler empties the text: an empty line is what the buffer holds, and it is emitted like any other */
         } else if (h->kind == K_WRITE) {
                 const char *exp = nvars == 2 ? "7,8" : "7";
                 if (h->size != strlen(exp) || memcmp(h->data, exp, h->size) != 0 || h->args_num != (size_t)nvars)
@@ -143,6 +144,7 @@ static void run_cell(void)
                 int code = k < slen ? script[k] : CAT_RETURN_STATE_OK;
                 char pay[64]; bool mod = rt && (rewrite == 1 || (rewrite == 2 && (k & 1)));
                 if (mod) snprintf(pay, sizeof pay, "~%d", k); else strcpy(pay, "\x01" "fresh");
+                if (rt && rewrite == 3 && (k % 3) != 1) pay[0] = 0;
                 switch (code) {
                 case CAT_RETURN_STATE_OK: final = "OK"; break;
                 case CAT_RETURN_STATE_ERROR: final = "ERROR"; break;
@@ -251,7 +253,7 @@ void chk_run_case(uint64_t seed, long c, bool is_sweep)
                 sch_eager(&RS); sch_eager(&WS);
         } else {
                 int kf = (int)rn(6); kind = CELL_KIND[kf]; fsm = CELL_FSM[kf];
-                nvars = (int)rn(3); rewrite = (int)rn(3); with_desc = chance(40); crlf = chance(30); hold_status = (int)rn(2); tight = chance(35);
+                nvars = (int)rn(3); rewrite = (int)rn(4); with_desc = chance(40); crlf = chance(30); hold_status = (int)rn(2); tight = chance(35);
                 slen = chance(70) ? (int)rn(9) : (int)rn(MAXS);
                 for (int i = 0; i < slen; i++) script[i] = (i + 1 < slen || chance(50)) ? CODES[rn(2)] : CODES[2 + rn(9)];
                 if (chance(15) && slen) script[rn((unsigned)slen)] = CODES[2 + rn(9)];
